@@ -100,6 +100,9 @@ theorem zeroLex_wf : zeroLex.WF :=
 
 theorem zeroLex_str : zeroLex.str = ['0'] := rfl
 
+theorem zeroLex_shape : MinShape0 zeroLex :=
+  ⟨(by intro h; cases h), (by intro t e; simp [zeroLex] at e; exact e)⟩
+
 theorem zeroLex_val : zeroLex.val = 0 := by
   have : natOf (['0'] ++ []) = 0 := by decide
   simp only [Lex.val, zeroLex, this]
@@ -117,7 +120,8 @@ theorem numberCore_lex (s : List Char) (neg signed : Bool) (ip fp : List Char) (
           (mlen (rnd p ⟨dropZeros ip, dropTrail '0' fp, e⟩).ip (rnd p ⟨dropZeros ip, dropTrail '0' fp, e⟩).fp +
               expLen (rnd p ⟨dropZeros ip, dropTrail '0' fp, e⟩).e ≤
             mlen (dropZeros ip) (dropTrail '0' fp) + expLen e →
-           l'.val = mantVal neg (rnd p ⟨dropZeros ip, dropTrail '0' fp, e⟩)))) := by
+           l'.val = mantVal neg (rnd p ⟨dropZeros ip, dropTrail '0' fp, e⟩)))) ∧
+      MinShape0 l' := by
   have hipd : ∀ c ∈ ip, c ≠ '.' := fun c hc => digit_ne_dot (hip c hc)
   have hfpd : ∀ c ∈ fp, c ≠ '.' := fun c hc => digit_ne_dot (hfp c hc)
   have hsp : splitLastDot (ip ++ (if dot then '.' :: fp else [])) = (ip, if dot then some fp else none) := by
@@ -145,7 +149,7 @@ theorem numberCore_lex (s : List Char) (neg signed : Bool) (ip fp : List Char) (
       rename_i hz
       simp only [Bool.and_eq_true, List.isEmpty_iff] at hz
       right
-      refine ⟨zeroLex, zeroLex_wf, zeroLex_str, by simp [zeroLex], ?_⟩
+      refine ⟨zeroLex, zeroLex_wf, zeroLex_str, by simp [zeroLex], ?_, zeroLex_shape⟩
       intro _
       left
       refine ⟨?_, zeroLex_val⟩
@@ -182,7 +186,7 @@ theorem numberCore_lex (s : List Char) (neg signed : Bool) (ip fp : List Char) (
             (rnd p ⟨dropZeros ip, dropTrail '0' fp, e⟩) hwf with hs | ⟨l', hl', hv⟩
           · left; unfold rnd at hs; exact hs
           · right
-            refine ⟨l', hl'.wf, ?_, ?_, ?_⟩
+            refine ⟨l', hl'.wf, ?_, ?_, ?_, hl'.shape.to0⟩
             · unfold rnd at hl'; exact hl'.str
             · rw [hl'.sg]; exact sgOf_ne_plus neg
             · intro hs
@@ -217,7 +221,7 @@ theorem numberCore_lex (s : List Char) (neg signed : Bool) (ip fp : List Char) (
     rw [htr2 hrest0 hdz hipne]
     right
     simp only [hdot, Bool.false_and, Bool.false_eq_true, if_false, Bool.not_false, Bool.true_and, beq_self_eq_true, if_true]
-    refine ⟨zeroLex, zeroLex_wf, zeroLex_str, by simp [zeroLex], ?_⟩
+    refine ⟨zeroLex, zeroLex_wf, zeroLex_str, by simp [zeroLex], ?_, zeroLex_shape⟩
     intro _
     left
     refine ⟨?_, zeroLex_val⟩
@@ -303,7 +307,8 @@ theorem number_lex (l : Lex) (hwf : l.WF) (p : Int)
         (mlen (rnd p ⟨dropZeros l.ip, dropTrail '0' l.fp, l.expVal⟩).ip (rnd p ⟨dropZeros l.ip, dropTrail '0' l.fp, l.expVal⟩).fp +
             expLen (rnd p ⟨dropZeros l.ip, dropTrail '0' l.fp, l.expVal⟩).e ≤
           mlen (dropZeros l.ip) (dropTrail '0' l.fp) + expLen l.expVal →
-         l'.val = mantVal l.sg.neg (rnd p ⟨dropZeros l.ip, dropTrail '0' l.fp, l.expVal⟩)))) := by
+         l'.val = mantVal l.sg.neg (rnd p ⟨dropZeros l.ip, dropTrail '0' l.fp, l.expVal⟩)))) ∧
+      MinShape0 l' := by
   unfold number
   split
   · left; rfl
@@ -362,14 +367,14 @@ theorem number_lex (l : Lex) (hwf : l.WF) (p : Int)
       have hdp : l.dotPart = if l.dot then '.' :: l.fp else [] := rfl
       rw [hdp] at hBl ⊢
       rcases numberCore_lex l.str l.sg.neg (l.sg != .none) l.ip l.fp l.dot l.expVal p hwf.ip hwf.fp hwf.nodot
-        hwf.nonempty hr with h | ⟨l', h1, h2, h3, h4⟩
+        hwf.nonempty hr with h | ⟨l', h1, h2, h3, h4, hsh⟩
       · left; exact h
       · right
         have hs : (if (l.sg != Sg.none) = true then 1 else 0) +
             (l.ip ++ if l.dot = true then '.' :: l.fp else []).length + expLen l.expVal ≤ l.str.length := by
           rw [hs4, hBl]; omega
         have hval0 : l.val = dval l.sg.neg (natOf (l.ip ++ l.fp)) (l.expVal - (l.fp.length : Int)) := rfl
-        refine ⟨l', h1, h2, h3, ?_, ?_⟩
+        refine ⟨l', h1, h2, h3, ?_, ?_, hsh⟩
         · intro hp
           rcases h4 hs with ⟨z1, z2⟩ | ⟨_, _, hv⟩
           · rw [z2, hval0, z1, dval_zero]
